@@ -1,5 +1,110 @@
+"""numpy.fft as seen by the code under test: the discrete Fourier transform by its definition.
+
+fftn(a, norm="ortho")[k] = prod(N)^(-1/2) * sum_n a[n] exp(-2 pi i sum_a k_a n_a / N_a), with exact roots of
+unity for axis lengths N in {1, 2, 3, 4, 6} (values 0, +-1, +-1/2, +-sqrt(3)/2; sqrt(3) algebraic).  The
+orthonormal factor is carried lazily: |.|^2 of an element is (re^2 + im^2) / prod(N) without any root.
+fftfreq(n, d) is its formula."""
+from fractions import Fraction as F
+import itertools
+
+import numpy as _np
+
 from .. import core
-def fftn(*a, **k):
-    raise core.Abort("unsupported", "fftn model not installed")
-def fftfreq(*a, **k):
-    raise core.Abort("unsupported", "fftfreq model not installed")
+from ..core import SR
+from ..npshim import lift, objarr, has_sym
+from .cplx import SC
+
+_ROOTS = {  # N -> list of (cos, sin) of 2 pi k / N as (rational part, coefficient of sqrt(3))
+    1: [((1, 0), (0, 0))],
+    2: [((1, 0), (0, 0)), ((-1, 0), (0, 0))],
+    4: [((1, 0), (0, 0)), ((0, 0), (1, 0)), ((-1, 0), (0, 0)), ((0, 0), (-1, 0))],
+    3: [((1, 0), (0, 0)), ((F(-1, 2), 0), (0, F(1, 2))), ((F(-1, 2), 0), (0, F(-1, 2)))],
+    6: [((1, 0), (0, 0)), ((F(1, 2), 0), (0, F(1, 2))), ((F(-1, 2), 0), (0, F(1, 2))), ((-1, 0), (0, 0)),
+        ((F(-1, 2), 0), (0, F(-1, 2))), ((F(1, 2), 0), (0, F(-1, 2)))],
+}
+
+
+class OrthoSC(SC):
+    """complex value times a lazily kept positive factor sqrt(scale2)"""
+    __slots__ = ("scale2",)
+
+    def __init__(self, re, im, scale2):
+        SC.__init__(self, re, im)
+        self.scale2 = scale2
+
+    def abs2(self):
+        return (self.re * self.re + self.im * self.im) * self.scale2
+
+    def abs(self):
+        return lift(self.abs2()).sqrt()
+
+    __abs__ = abs
+
+    def _mat(self):
+        s = SR(self.scale2).sqrt()
+        return SC(self.re * s, self.im * s)
+
+    @property
+    def real(self):
+        return self._mat().re
+
+    @property
+    def imag(self):
+        return self._mat().im
+
+
+def _val(pair, r3):
+    a, b = pair
+    v = SR(F(a))
+    if b:
+        v = v + F(b) * r3
+    return v
+
+
+def fftn(a, s=None, axes=None, norm=None):
+    arr = a if isinstance(a, _np.ndarray) else _np.asarray(a)
+    if arr.dtype != object and not has_sym(arr):
+        return _np.fft.fftn(arr, s=s, axes=axes, norm=norm)
+    if s is not None or axes is not None:
+        raise core.Abort("unsupported", "fftn with s/axes")
+    shape = arr.shape
+    for n in shape:
+        if n not in _ROOTS:
+            raise core.Abort("out_of_bound", f"DFT model only for axis lengths 1,2,3,4,6 (got {n})")
+    r3 = SR(F(3)).sqrt() if any(n in (3, 6) for n in shape) else None
+    tabs = [[(_val(c, r3), _val(s_, r3)) for c, s_ in _ROOTS[n]] for n in shape]
+    total = 1
+    for n in shape:
+        total *= n
+    if norm == "ortho":
+        scale2 = F(1, total)
+    elif norm in (None, "backward"):
+        scale2 = F(1)
+    elif norm == "forward":
+        scale2 = F(1, total * total)
+    else:
+        raise ValueError(f"Invalid norm value {norm}")
+    out = _np.empty(shape, dtype=object)
+    idxs = list(itertools.product(*[range(n) for n in shape]))
+    for k in idxs:
+        re, im = SR(F(0)), SR(F(0))
+        for nidx in idxs:
+            # exp(-i phi) with phi = sum 2 pi k_a n_a / N_a : multiply the unit roots axis by axis
+            c, s_ = SR(F(1)), SR(F(0))
+            for ax, n in enumerate(shape):
+                ca, sa = tabs[ax][(k[ax] * nidx[ax]) % n]
+                c, s_ = c * ca - s_ * sa, s_ * ca + c * sa
+            v = lift(arr[nidx])
+            re = re + v * c
+            im = im - v * s_
+        out[k] = OrthoSC(re, im, scale2)
+    return out
+
+
+def fftfreq(n, d=1.0):
+    d = lift(d)
+    res = _np.empty(n, dtype=object)
+    for i in range(n):
+        k = i if i < (n + 1) // 2 else i - n
+        res[i] = F(k) / (n * d)
+    return res
